@@ -52,6 +52,28 @@ NEEDS = {
     "C19/m2": ("use() records the path before evaluating the file", "use(f) of a file that fails, then use(f) again"),
     "C20/m1": ("Unused_Return gives loop-body call statements the location of the loop body", "a failing or enclosing call that is a non-first statement of a while/for body"),
     "C20/m2": ("Position::operator-(n) no longer steps back character by character", "CRLF line ends with a // or # comment earlier in the chunk: line numbers too large"),
+    # ---- second round (m3, m4): written after the checks had been strengthened against the first round
+    "C04/m3": ("get_object: the loop checking nearer scopes for a shadowing declaration keeps only the last scope's verdict", "a variable first found >=2 scopes out, later a same-named variable (eval) in a nearer, non-adjacent scope"),
+    "C04/m4": ("QuickFlatMap::find trusts a non-zero position hint without comparing the key", "set_state, then the functions are redefined in a different order: nodes evaluated before keep stale hints"),
+    "C06/m3": ("Dynamic_Caster uses static_pointer_cast for const shared_ptr-held objects", "a const, shared_ptr-held Base (or sibling) passed where const Derived& is expected"),
+    "C06/m4": ("Boxed_Number::get_as reads a 32-bit unsigned value as int32", "an unsigned 32-bit value > INT_MAX converted to a wider integer / floating parameter or std::function result"),
+    "C07/m3": ("integer literals beyond long long (stoull fallback of buildInt) are created mutable", "a literal > 2^63-1 mutated in place (++, +=) or through a reference"),
+    "C07/m4": ("Handle_Return<const T&> returns scalars as mutable copies", "++/-- or a T&/T* function applied to an arithmetic const& result (getter, data member of a const object, element of a const string)"),
+    "C08/m3": ("cached local lookup checks only the innermost scope for a shadowing declaration", "same Id node evaluated twice, a scope strictly between declares the name the second time"),
+    "C08/m4": ("Inline_Map takes the is-a-variable flag of the key instead of the value when cloning", "[\"k\": x] with x a parameter bound to a temporary, element mutated in place, closure called twice"),
+    "C09/m3": ("contains_var_decl_in_scope does not look into If children", "a block / loop body whose only declaration sits in an if-condition: `if (var x = f()) {..}`"),
+    "C09/m4": ("get_scoped_bool_condition pops its scope on the normal path only", "an exception leaving the condition of a while / non-compiled for loop (same effect as C09/m1)"),
+    "C10/m3": ("the normal-path finally evaluation moved inside the try whose catch(...) re-runs finally", "a finally block that itself throws"),
+    "C10/m4": ("Dynamic_Caster uses static_cast for const references", "a C++ exception against a typed catch clause naming a registered subclass of its type, placed before the right clause"),
+    "C11/m3": ("Unused_Return also rewrites the last statement of a block", "function whose last statement is f(<temporary>) returning a reference into the argument (same as C11/m2)"),
+    "C11/m4": ("pointer_sentinel refreshes only the mutable data pointer after a shared_ptr& parameter was re-seated", "C++ function replacing the pointee through shared_ptr<T>&, then a const access to the variable"),
+    "C12/m4": ("substr takes (int, int) instead of (size_t, size_t)", "position or length >= 2^32 whose low 32 bits are valid"),
+    "C13/m3": ("add_function extends the published overload vector in place", "dispatch by name on one thread while another adds an overload (same as C13/m1)"),
+    "C13/m4": ("get_state takes m_mutex before m_use_mutex (use() takes them the other way round)", "get_state while another thread is inside use() of a new file: deadlock"),
+    "C14/m3": ("Thread_Storage remembers the last looked-up object per thread, reset only on the destroying thread", "engine destroyed on thread A, new engine at the same address, first touched by a surviving thread B"),
+    "C14/m4": ("the convertible-types cache is a function-local static thread_local shared by all engines, refreshed on size mismatch only", "two engines with equally many but different conversions used alternately on one thread"),
+    "C15/m3": ("set_state returns early when a revision counter kept inside the state matches", "two sibling histories from one snapshot with equally many registrations, restore from one to the other"),
+    "C15/m4": ("set_global assigns through the existing object instead of re-binding the name", "set_global on a global that an earlier snapshot holds, then set_state to that snapshot"),
 }
 
 
